@@ -65,6 +65,13 @@ def random_spec(rng):
         rels.append({'kind': kind, 'a': a, 'b': b, 'req': req, 'cascade': casc})
     return {'ents': ents, 'rels': rels}
 
+def rawpk(o):
+    """the primary key of an object as the tuple of column values, or None while it is not known"""
+    if o._pkval_ is None: return None
+    try: raw = tuple(o._get_raw_pkval_())
+    except Exception: return None
+    return None if any(v is None for v in raw) else raw
+
 class World:
     """one database built from a spec; executes ops; knows how to abstract the live session"""
     def __init__(self, spec, strict=False):
@@ -202,7 +209,8 @@ class World:
         objs = list(cache.objects)
         def key(o):
             i = self.E.index(o.__class__)
-            return (i, 0, o._pkval_) if o._pkval_ is not None else (i, 1, o._vals_[o.__class__.tag])
+            t = o._vals_.get(o.__class__.tag)
+            return (i, 0, t) if t is not None else (i, 1) + rawpk(o)
         objs.sort(key=key)
         num = {o: k for k, o in enumerate(objs)}
         status, refs = [], []
@@ -236,7 +244,7 @@ class World:
         by_tag = {}; by_pk = {}
         for o, k in num.items():
             i = self.E.index(o.__class__)
-            if o._pkval_ is not None: by_pk[(i, o._pkval_)] = k
+            if rawpk(o) is not None: by_pk[(i, rawpk(o))] = k
             t = o._vals_.get(o.__class__.tag)
             if t is not None: by_tag[t] = k
         ent_of = [self.E.index(o.__class__) for o in objs]
@@ -246,7 +254,7 @@ class World:
         """the recorded statements as model writes, in execution order; also the raw (sql, args, write) triples"""
         # objects inserted during this flush got their pk now
         for k, o in enumerate(objs):
-            if o._pkval_ is not None: by_pk.setdefault((self.E.index(o.__class__), o._pkval_), k)
+            if rawpk(o) is not None: by_pk.setdefault((self.E.index(o.__class__), rawpk(o)), k)
         items = []; unknown = []
         for sql, argsl in self.log:
             m = INS.match(sql)
@@ -256,23 +264,25 @@ class World:
                     for a in argsl: items.append((sql, a, ['insert', by_tag.get(a[cols.index('tag')], -1)]))
                 elif t in self.m2m_tables:
                     for a in argsl:
-                        items.append((sql, a, ['link'] + sorted(by_pk.get((self.m2m_tables[t][c], v), -1) for c, v in zip(cols, a))))
+                        items.append((sql, a, ['link'] + sorted(by_pk.get((self.m2m_tables[t][c], (v,)), -1) for c, v in zip(cols, a))))
                 else: unknown.append(sql)
                 continue
             m = UPD.match(sql)
             if m:
                 t = m.group(1); nset = m.group(2).count('= ?')
-                for a in argsl: items.append((sql, a, ['update', by_pk.get((self.tables[t], a[nset]), -1)]))
+                npk = len(self.E[self.tables[t]]._pk_columns_)
+                for a in argsl: items.append((sql, a, ['update', by_pk.get((self.tables[t], tuple(a[nset:nset + npk])), -1)]))
                 continue
             m = DEL.match(sql)
             if m:
                 t = m.group(1)
                 if t in self.tables:
-                    for a in argsl: items.append((sql, a, ['delete', by_pk.get((self.tables[t], a[0]), -1)]))
+                    npk = len(self.E[self.tables[t]]._pk_columns_)
+                    for a in argsl: items.append((sql, a, ['delete', by_pk.get((self.tables[t], tuple(a[:npk])), -1)]))
                 elif t in self.m2m_tables:
                     cols = re.findall(r'"(\w+)" = \?', m.group(2))
                     for a in argsl:
-                        items.append((sql, a, ['unlink'] + sorted(by_pk.get((self.m2m_tables[t][c], v), -1) for c, v in zip(cols, a))))
+                        items.append((sql, a, ['unlink'] + sorted(by_pk.get((self.m2m_tables[t][c], (v,)), -1) for c, v in zip(cols, a))))
                 else: unknown.append(sql)
                 continue
             if sql.startswith(('SELECT', 'BEGIN', 'PRAGMA')) or not sql.strip(): continue
@@ -298,11 +308,13 @@ class World:
             for attr in E2._attrs_with_columns_:
                 if not attr.reverse or attr.reverse.entity is not p.__class__: continue
                 cur = sqlite3.Cursor(con)
-                cur.execute('SELECT "%s" FROM "%s" WHERE "%s" = ?' % (E2._pk_columns_[0], E2._table_, attr.columns[0]), [p._pkval_])
-                for (pk2,) in cur.fetchall():
-                    if E2 is p.__class__ and pk2 == p._pkval_: continue      # a row referencing itself does not block its own DELETE
+                cur.execute('SELECT %s FROM "%s" WHERE %s' % (', '.join('"%s"' % c for c in E2._pk_columns_), E2._table_,
+                                                           ' AND '.join('"%s" = ?' % c for c in attr.columns)), list(rawpk(p)))
+                for pk2 in cur.fetchall():
+                    pk2 = tuple(pk2)
+                    if E2 is p.__class__ and pk2 == rawpk(p): continue      # a row referencing itself does not block its own DELETE
                     found += 1
-                    o2 = cache.indexes[E2._pk_attrs_].get(pk2)
+                    o2 = next((o for o in cache.objects if o.__class__ is E2 and rawpk(o) == pk2), None)
                     if o2 is None or o2._status_ != 'marked_to_delete': return False
         return found > 0
 
@@ -363,6 +375,7 @@ class Run:
         self.stats = {}
         self.prng = random.Random(1000003 * ctx.seed + 17)    # permutation experiments (independent of op generation)
         self.perm_reqs = []       # (model 'accepts' request, what SQLite said, context)
+        self.pk_used = set()      # (entity, target tag) pairs already used as a reference primary key
         self.byproducts = []      # op-level crashes of Pony that are outside C16 (reported in the notes)
         self.all_explicit = all(not e['auto'] for e in spec['ents'])
 
@@ -380,6 +393,11 @@ class Run:
             r = rng.random()
             if r < 0.36 or not (w.objs or w.persist):
                 e = rng.randrange(len(w.E)); kw = {}; ok = True
+                if w.pk_ref[e] is not None:
+                    kind, te = w.pk_ref[e]
+                    cands = [t for t in w.alive(te) if kind == 'comp' or (e, t) not in self.pk_used]
+                    if not cands: continue
+                    kw['p'] = rng.choice(cands)
                 for name, te, req in w.ref_attrs[e]:
                     cands = w.alive(te)
                     if req:
@@ -428,7 +446,10 @@ class Run:
         if k == 'new':
             _, e, tag, kw, links = op
             args = {'tag': tag}
-            if not self.spec['ents'][e]['auto']: args['id'] = 1000 + tag
+            if w.pk_ref[e] is not None:
+                self.pk_used.add((e, kw.get('p')))
+                if w.pk_ref[e][0] == 'comp': args['num'] = tag
+            elif not self.spec['ents'][e]['auto']: args['id'] = 1000 + tag
             for name, t in kw.items(): args[name] = w.get(t)
             for name, ts in links.items(): args[name] = [w.get(t) for t in ts]
             if any(v is None for v in args.values()) or any(isinstance(v, list) and None in v for v in args.values()):
